@@ -80,6 +80,8 @@ func GenFaults(t *rapid.T, mods []Module, phases []string) {
 		cb.Fault = kind
 		if kind == "panic" {
 			cb.Panic = rapid.SampledFrom(PanicKinds).Draw(t, "panickind")
+		} else {
+			cb.ErrKind = rapid.SampledFrom([]string{"", "", "cleanexit", "cleanexit-wrapped", "ctxcanceled"}).Draw(t, "errkind")
 		}
 	}
 }
